@@ -49,7 +49,11 @@ _LINEN = ('LinenScope.tla: a state machine executing module programs one public 
           'the same instance / return), every error outcome explicit; phase 1 = init (program chosen op by op), phase 2 = apply of the same '
           'program on init\'s tree (exact, parameter dropped or reshaped, state dropped or emptied) under every mutable filter and rng set. '
           'TLC checks exhaustively (bounded programs) the invariants; behaviours from tlc -simulate (<= 8 ops, depth 2, names a/b/ab) and '
-          'exhaustive focused alphabets are compiled to real nn.Modules and init/apply are executed and compared step by step. ')
+          'exhaustive focused alphabets are compiled to real nn.Modules and init/apply are executed and compared step by step. '
+          'LinenSetup.tla: setup-style modules (lazy binding, one instance under two attributes / held by two parents, nn.share_scope '
+          'with a wrapper child declared in setup or passed as attribute), programs of uses through plain or lifted methods (nn.jit / nn.remat / '
+          'identity nn.map_variables decorators, nn.while_loop); implementation-shaped state (inner copy + publish, shared rng counters) vs '
+          'plain reference state as TLC invariant; replayed on real classes with the equivalent plain program as second oracle. ')
 CLAIMED['C01'] = dict(
     text=_LINEN + 'C01 verdicts: observation values, sow results, returned collections (exactly the existing ones matching mutable), '
          'ModifyScopeVariableError on immutable writes, bit-identity of variables / rngs / Mapping arguments (snapshots), no aliasing of '
@@ -134,7 +138,7 @@ CLAIMED['C05'] = dict(
           'rng stream at each call of a jitted child (key identities relative to the forked key); everything else must be exactly the plain '
           'semantics. Replay is three-way: specification, lifted real run (transformed classes created once so trace caches persist across '
           'behaviours and repeated calls), plain real run of the same program; plus whole-body nn.cond / nn.switch wraps at apply time. '
-          'Not exercised: method-decorator forms, nn.while_loop, non-default variables/rngs lifting filters.'),
+          'Method-decorator lifts and nn.while_loop: LinenSetup.tla. Not exercised: non-default variables/rngs lifting filters.'),
     technique='TLA+ state machine with lifted children + TLC; spec->code replay with the plain program as second oracle',
     design_ref='3/C05')
 
